@@ -168,7 +168,7 @@ fn main() {
                 println!("== {} -> {:?} ({} calls, {:.2} s)", cfg.name(), r, o.calls, started.elapsed().as_secs_f64());
                 if cfg.name() == "strict-uncached" {
                     for (k, v) in &o.lines {
-                        println!("{} = {}", k, core::truncate(v, 200));
+                        println!("{} = {}", k, core::truncate(v, if std::env::var("VERIF_FULL").is_ok() { 1_000_000 } else { 200 }));
                     }
                 }
             }
